@@ -12,13 +12,14 @@ sys.path.insert(0, HERE)
 class H:
     def __init__(self, name, module, prop, tier="quick", expect="pass", unwind=None, timeout=600,
                  timeout_thorough=3600, cost=30, bounds="", functions=(), allowed_fail=None,
-                 require_refusal=False):
+                 require_refusal=False, mem_gb=10, mem_gb_thorough=16):
         self.name, self.module, self.prop, self.tier, self.expect = name, module, prop, tier, expect
         self.unwind, self.timeout, self.timeout_thorough, self.cost = unwind, timeout, timeout_thorough, cost
         self.bounds, self.functions = bounds, list(functions)
         # regex over "<cbmc check name> | <location>": failures matching it are the code's own loud
         # refusals (panics inside the named function), which the property allows
         self.allowed_fail, self.require_refusal = allowed_fail, require_refusal
+        self.mem_gb, self.mem_gb_thorough = mem_gb, mem_gb_thorough
 
     @property
     def qualified(self):
@@ -52,6 +53,106 @@ HAND += [
     H("c04_decode_length_rule", "c04", "C04", unwind=3, cost=10,
       bounds="first byte any, buffer length 0..=1100, both modes",
       functions=["insim::net::Mode::decode_length"]),
+]
+
+HAND += [
+    # ---- C07 ------------------------------------------------------------------------------------
+    H("c07_pong_every_tiny", "c07", "C07", unwind=4, cost=20,
+      bounds="reqi: u8 = any(), sub-type = any of the variants declared in tiny.rs (generated index function)",
+      functions=["insim::Packet::maybe_pong", "insim::insim::Tiny::is_keepalive"]),
+    H("c07_pong_other_kinds", "c07", "C07", unwind=42, cost=120,
+      bounds="every non-TINY packet kind (variant list generated from packet.rs), Default payload",
+      functions=["insim::Packet::maybe_pong"]),
+    # ---- C09 ------------------------------------------------------------------------------------
+    H("c09_gate_every_version", "c09", "C09", unwind=8, cost=20,
+      bounds="insimver: u8 = any(), reqi any, other VER fields default",
+      functions=["insim::Packet::maybe_verify_version"]),
+    H("c09_gate_other_kinds", "c09", "C09", unwind=42, cost=120,
+      bounds="every non-VER packet kind (generated list), Default payload",
+      functions=["insim::Packet::maybe_verify_version"]),
+    # ---- C14 ------------------------------------------------------------------------------------
+    H("c14_wire_to_track", "c14", "C14", unwind=8, cost=200, timeout=900,
+      bounds="b: [u8;6] = any() - all 2^48 six-byte values",
+      functions=["<insim_core::track::Track as BinRead>::read_options", "<Track as BinWrite>::write_options", "Track::code",
+                 "Track::is_reverse", "Track::is_open", "Track::distance_mile", "Track::distance_km"]),
+    H("c14_track_to_wire", "c14", "C14", unwind=8, cost=200, timeout=900,
+      bounds="i = any() < number of Track variants (index->variant function generated from the enum declaration)",
+      functions=["<Track as BinWrite>::write_options", "<Track as BinRead>::read_options", "Track::code", "Track::license",
+                 "Track::is_reverse", "Track::is_open", "Track::distance_mile", "Track::distance_km"]),
+    H("c14_twin_must_fail", "c14", "C14", tier="thorough", expect="fail", unwind=8, cost=60,
+      bounds="vacuity twin: claims only 3-character codes decode; must be refuted"),
+    # ---- C15 ------------------------------------------------------------------------------------
+    H("c15_racelaps_bytes", "c15", "C15", unwind=3, cost=5, bounds="all 256 race-length bytes",
+      functions=["<insim::insim::RaceLaps as From<u8>>::from", "<u8 as From<RaceLaps>>::from"]),
+    H("c15_racelaps_laps_encode", "c15", "C15", unwind=3, cost=5, bounds="Laps(n), n: usize = any()",
+      functions=["<u8 as From<RaceLaps>>::from", "<RaceLaps as From<u8>>::from"]),
+    H("c15_racelaps_hours_encode", "c15", "C15", unwind=3, cost=5, bounds="Hours(h), h: usize = any()",
+      functions=["<u8 as From<RaceLaps>>::from", "<RaceLaps as From<u8>>::from"]),
+] + [
+    H("c15_duration_%s_s%d_%s" % (t, s, k), "c15", "C15", unwind=10, cost=30,
+      bounds=("every %s wire value" % t) if k == "wire" else "Duration::new(secs <= 2^34, any nanos)",
+      functions=["insim_core::duration::binrw_parse_duration::<%s, %d>" % (t, s), "insim_core::duration::binrw_write_duration::<%s, %d>" % (t, s)])
+    for t in ("u16", "u32") for s in (1, 10) for k in ("wire", "encode")
+] + [
+    H("c15_duration_%s_s%d_huge" % (t, s), "c15", "C15", unwind=10, cost=30,
+      bounds="Duration::new(secs in (2^34, u64::MAX], any nanos): must be refused",
+      functions=["insim_core::duration::binrw_write_duration::<%s, %d>" % (t, s)])
+    for t in ("u16", "u32") for s in (1, 10)
+] + [
+] + [
+    H("c15_small_%s_wire" % k, "c15", "C15", tier="quick" if k in ("ssp", "nli") else "thorough", unwind=8, cost=300, timeout=900,
+      bounds="SMALL sub-type %s x every u32 value" % k.upper(),
+      functions=["<insim::insim::SmallType as BinRead>::read_options", "<SmallType as BinWrite>::write_options"])
+    for k in ("ssp", "ssg", "stp", "rtp", "nli")
+] + [
+    H("c15_small_time_encode", "c15", "C15", unwind=8, cost=30,
+      bounds="the five timed sub-types x Duration::new(secs <= 2^34, any nanos)",
+      functions=["<SmallType as BinWrite>::write_options"]),
+    # ---- C16 ------------------------------------------------------------------------------------
+    H("c16_order_axioms", "c16", "C16", cost=10,
+      bounds="three symbolic GameVersions: major any f32 except NaN and -0.0, minor any char, patch any Option<usize>",
+      functions=["<insim_core::game_version::GameVersion as Ord>::cmp", "<GameVersion as PartialEq>::eq", "<GameVersion as PartialOrd>::partial_cmp"]),
+    H("c16_twin_must_fail", "c16", "C16", tier="thorough", expect="fail", cost=10,
+      bounds="vacuity twin: claims order is decided by the number alone; must be refuted"),
+    # ---- C18 ------------------------------------------------------------------------------------
+    H("c18_builder_program", "c18", "C18", unwind=20, cost=120,
+      bounds="optional isi_flags(any) ; 4 setter calls (setter = any of 10, value any bool) with an optional isi_flags(any) after the 2nd ; prefix/interval/reqi present or absent ; tcp | udp(Some) | udp(None) | relay",
+      functions=["insim::Builder::default", "Builder::isi_flag_* (10)", "Builder::isi_flags", "Builder::isi_prefix", "Builder::isi_interval",
+                 "Builder::isi_reqi", "Builder::tcp", "Builder::udp", "Builder::relay", "Builder::isi"]),
+    H("c18_builder_strings", "c18", "C18", unwind=20, cost=60,
+      bounds="program name / admin password: unset | set | set twice | set then cleared (fixed ASCII samples)",
+      functions=["Builder::isi_iname", "Builder::isi_admin_password", "Builder::isi"]),
+] + [
+    H("c18_handshake_%s" % m, "c18", "C18", unwind=70, cost=200, timeout=900,
+      bounds="builder: MCI|CON, prefix '!', interval 1000 ms, request id any u8, %s mode; recording transport" % m,
+      functions=["insim::net::blocking_impl::Framed::handshake", "Framed::write", "insim::net::Codec::encode", "<Isi as BinWrite>::write_options", "Builder::isi"])
+    for m in ("compressed", "uncompressed")
+] + [
+    # ---- C06 ------------------------------------------------------------------------------------
+    H("c06_blocking_short_writes", "c06", "C06", unwind=14, cost=120, timeout=900,
+      bounds="2 packets (TINY any reqi, SMALL/TMS any reqi+bool), both modes, transport accepts any k in 1..=len per call (<= 12 calls)",
+      functions=["insim::net::blocking_impl::Framed::write", "insim::net::Codec::encode"]),
+    # ---- C17 ------------------------------------------------------------------------------------
+    H("c17_pth_image_0", "c17", "C17", unwind=8, cost=30, bounds="PTH image, node count 0, all other bytes symbolic (16 bytes)",
+      functions=["insim_pth::Pth::read", "insim_pth::Pth::write"]),
+    H("c17_pth_image_1", "c17", "C17", unwind=8, cost=60, bounds="PTH image, node count 1, all other bytes symbolic (56 bytes)",
+      functions=["insim_pth::Pth::read", "insim_pth::Pth::write"]),
+    H("c17_pth_image_2", "c17", "C17", tier="thorough", unwind=8, cost=900, mem_gb_thorough=20, bounds="PTH image, node count 2, all other bytes symbolic (96 bytes)",
+      functions=["insim_pth::Pth::read", "insim_pth::Pth::write"]),
+    H("c17_pth_bad_magic", "c17", "C17", unwind=8, cost=30, bounds="16-byte image with any magic other than LFSPTH",
+      functions=["insim_pth::Pth::read"]),
+] + [
+    H("c17_pth_cut_%d" % c, "c17", "C17", tier="quick" if c in (55, 16) else "thorough", unwind=8, cost=40,
+      bounds="one-node PTH image (count field 1, rest symbolic) truncated to %d of 56 bytes" % c,
+      functions=["insim_pth::Pth::read"]) for c in (55, 36, 16)
+] + [
+    H("c17_smx_image_0_0", "c17", "C17", unwind=34, cost=120, bounds="SMX image: 0 objects, 0 checkpoints, ASCII track name, other bytes symbolic (68 bytes)",
+      functions=["insim_smx::Smx::read", "insim_smx::Smx::write"]),
+    H("c17_smx_image_0_1", "c17", "C17", tier="thorough", unwind=34, cost=150, bounds="SMX image: 0 objects, 1 checkpoint (72 bytes)",
+      functions=["insim_smx::Smx::read", "insim_smx::Smx::write"]),
+    H("c17_smx_image_1_1", "c17", "C17", tier="thorough", unwind=34, cost=400, timeout_thorough=3600,
+      bounds="SMX image: 1 object with 1 point and 1 triangle, 1 checkpoint (120 bytes)",
+      functions=["insim_smx::Smx::read", "insim_smx::Smx::write"]),
 ]
 
 PROPERTY_NOTES = {
